@@ -47,6 +47,10 @@ def gen_filter(rng, depth, st):
     every severity leaf gets its own N (and_/or_filter derive from both operands, so a type may
     occur only once), at most one null_filter leaf, at most three severity leaves"""
     def leaf():
+        # a filter that looks at the tag of the record (only for records with a tag attribute)
+        if st.get("tag_ok") and not st.get("tag_used") and rng.random() < 0.18:
+            st["tag_used"] = True
+            return ("tag",)
         if st["leaves"] < 3 and (st["null_used"] or rng.random() < 0.85):
             st["leaves"] += 1
             return ("sev", st["leaves"] - 1)
@@ -72,6 +76,8 @@ def filter_cpp(t):
         return f"nitro::log::filter::severity_filter<R, {t[1]}>"
     if t[0] == "null":
         return "nitro::log::filter::null_filter<R>"
+    if t[0] == "tag":
+        return "TagFilter<R>"
     if t[0] == "not":
         return f"nitro::log::filter::not_filter<{filter_cpp(t[1])}>"
     return f"nitro::log::filter::{t[0]}_filter<{filter_cpp(t[1])}, {filter_cpp(t[2])}>"
@@ -82,34 +88,38 @@ def filter_str(t):
         return f"s>=T{t[1]}"
     if t[0] == "null":
         return "true"
+    if t[0] == "tag":
+        return "tag!=mute"
     if t[0] == "not":
         return f"!({filter_str(t[1])})"
     return f"({filter_str(t[1])} {'&&' if t[0] == 'and' else '||'} {filter_str(t[2])})"
 
 
-def filter_eval(t, s, th):
+def filter_eval(t, s, th, tag=""):
     if t[0] == "sev":
         return s >= th[t[1]]
     if t[0] == "null":
         return True
+    if t[0] == "tag":
+        return tag != "mute"
     if t[0] == "not":
-        return not filter_eval(t[1], s, th)
+        return not filter_eval(t[1], s, th, tag)
     if t[0] == "and":
-        return filter_eval(t[1], s, th) and filter_eval(t[2], s, th)
-    return filter_eval(t[1], s, th) or filter_eval(t[2], s, th)
+        return filter_eval(t[1], s, th, tag) and filter_eval(t[2], s, th, tag)
+    return filter_eval(t[1], s, th, tag) or filter_eval(t[2], s, th, tag)
 
 
 def filter_ops(t):
-    if t[0] in ("sev", "null"):
+    if t[0] in ("sev", "null", "tag"):
         return 0
     return 1 + sum(filter_ops(x) for x in t[1:])
 
 
-ITEM_KINDS = ["lit", "string", "cstr", "int", "double", "char", "call_s", "call_c", "call_obj"]
+ITEM_KINDS = ["lit", "string", "cstr", "int", "double", "char", "call_s", "call_c", "call_obj", "failbit"]
 
 
 def gen_item(rng, uid, callable_bias):
-    w = [3, 2, 2, 2, 1, 1] + [callable_bias, callable_bias * 0.6, callable_bias * 0.6]
+    w = [3, 2, 2, 2, 1, 1] + [callable_bias, callable_bias * 0.6, callable_bias * 0.6] + [0.25]
     kind = rng.choices(ITEM_KINDS, weights=w)[0]
     if kind in ("lit", "string", "cstr"):
         text = rng.choice(["a", "msg", "x y", "", "{}", "[t]", "0", "T|F", "end."]) + str(uid % 7)
@@ -120,6 +130,10 @@ def gen_item(rng, uid, callable_bias):
         return {"kind": kind, "text": rng.choice(["0.5", "2.5", "-1.25", "100", "1e+06"])}
     if kind == "char":
         return {"kind": kind, "text": rng.choice("cZ#1")}
+    if kind == "failbit":
+        # inserting a null stream buffer sets failbit on the statement's stream: nothing that is
+        # streamed afterwards reaches the message, but the statement still is a statement
+        return {"kind": kind, "text": ""}
     return {"kind": kind, "text": f"<r{uid}>", "cid": uid}
 
 
@@ -127,10 +141,11 @@ def gen_program(seed, prop):
     rng = random.Random(seed)
     p = {"seed": seed, "prop": prop, "min": seed % 6}
     p["has_tag"] = rng.random() < 0.75
-    st = {"leaves": 0, "null_used": False}
+    st = {"leaves": 0, "null_used": False, "tag_ok": p["has_tag"]}
     p["filter"] = gen_filter(rng, rng.choice([0, 1, 2, 3, 3, 3]), st) or ("null",)
     p["leaves"] = st["leaves"]
     p["nsinks"] = rng.choice([0, 1, 2, 3, 4])  # 0 = a plain sink, not a sequence
+    p["nested"] = p["nsinks"] >= 3 and rng.random() < 0.4  # sequence<S0, sequence<S1>, S2...>
     nst = rng.randint(5, 40)
     bias = 4.0 if prop == "C10" else 1.2
     uid = 0
@@ -139,7 +154,7 @@ def gen_program(seed, prop):
         s = {"sev": rng.randrange(6), "named": rng.random() < 0.45,
              "tag": None, "items": []}
         if rng.random() < 0.5:
-            s["tag"] = rng.choice(["tag", "", "MPI", "a b"])
+            s["tag"] = rng.choice(["tag", "", "MPI", "a b", "mute", "mute"])
         for _ in range(rng.choice([0, 1, 1, 2, 2, 3, 4, 5])):
             uid += 1
             s["items"].append(gen_item(rng, uid, bias))
@@ -148,7 +163,7 @@ def gen_program(seed, prop):
         if s["named"] and rng.random() < 0.3:
             inner = {"sev": rng.randrange(6), "named": False, "tag": None, "items": []}
             if rng.random() < 0.5:
-                inner["tag"] = rng.choice(["in", "", "tag"])
+                inner["tag"] = rng.choice(["in", "", "tag", "mute"])
             for _ in range(rng.choice([0, 1, 2])):
                 uid += 1
                 inner["items"].append(gen_item(rng, uid, bias))
@@ -179,6 +194,8 @@ def item_cpp(it, k, j):
         return f"    double v{j} = {it['text']};\n", f"v{j}"
     if kind == "char":
         return f"    char v{j} = '{it['text']}';\n", f"v{j}"
+    if kind == "failbit":
+        return f"    std::streambuf* v{j} = nullptr;\n", f"v{j}"
     cid = it["cid"]
     if kind == "call_s":
         return "", f'[]() -> std::string {{ ev("C{cid}"); return {cstr(it["text"])}; }}'
@@ -199,7 +216,7 @@ def program_cpp(p):
       "#include <nitro/log/filter/null_filter.hpp>\n#include <nitro/log/filter/or_filter.hpp>\n"
       "#include <nitro/log/filter/severity_filter.hpp>\n#include <nitro/log/log.hpp>\n"
       "#include <nitro/log/sink/sequence.hpp>\n"
-      "#include <cstdio>\n#include <string>\n#include <type_traits>\n#include <vector>\n")
+      "#include <cstdio>\n#include <streambuf>\n#include <string>\n#include <type_traits>\n#include <vector>\n")
     a("static std::vector<std::string> trace;\nstatic void ev(const std::string& s) { trace.push_back(s); }\n")
     a("struct CountingClock { typedef long time_point; static long now() { static long t = 0; return ++t; } };\n")
     attrs = (["nitro::log::tag_attribute"] if p["has_tag"] else []) + \
@@ -210,11 +227,20 @@ def program_cpp(p):
     tag_expr = "r.tag()" if p["has_tag"] else 'std::string("-")'
     a("template <typename R> struct Fmt { std::string format(R& r) { std::string o = \"F|\" + "
       "sevstr(r.severity()) + \"|\" + %s + \"|\" + r.message(); ev(o); return o; } };\n" % tag_expr)
-    a("template <int K> struct RecSink { void sink(nitro::log::severity_level s, const std::string& t) "
+    # members with an odd index take the formatted record BY VALUE (a queueing sink would)
+    a("template <int K> struct RecSink { void sink(nitro::log::severity_level s, "
+      "typename std::conditional<K % 2 == 1, std::string, const std::string&>::type t) "
       "{ ev(\"S\" + std::to_string(K) + \"|\" + sevstr(s) + \"|\" + t); } };\n")
+    if p["has_tag"]:
+        a("template <typename R> struct TagFilter { typedef R record_type; "
+          "bool filter(R& r) const { return r.tag() != \"mute\"; } };\n")
     a("template <typename R> using Filter = %s;\n" % filter_cpp(p["filter"]))
     if p["nsinks"] == 0:
         sink = "RecSink<0>"
+    elif p.get("nested"):
+        members = [f"RecSink<{k}>" for k in range(p["nsinks"])]
+        members[1] = f"nitro::log::sink::sequence<{members[1]}>"
+        sink = "nitro::log::sink::sequence<%s>" % ", ".join(members)
     else:
         sink = "nitro::log::sink::sequence<%s>" % ", ".join(f"RecSink<{k}>" for k in range(p["nsinks"]))
     a(f"using L = nitro::log::logger<Record, Fmt, {sink}, Filter>;\n")
@@ -264,8 +290,9 @@ def program_cpp(p):
             a("    " + " << ".join([call] + exprs) + ";")
         a("}\n")
     a("// the decision of the real runtime filter for a record of that severity (C10 is stated relative to it)")
-    a("static int will(int sev) { Record r; r.severity() = static_cast<nitro::log::severity_level>(sev); "
-      "return L::will_log(r) ? 1 : 0; }\n")
+    settag = "r.tag() = tag; " if p["has_tag"] else "(void)tag; "
+    a("static int will(int sev, const char* tag) { Record r; r.severity() = "
+      "static_cast<nitro::log::severity_level>(sev); " + settag + "return L::will_log(r) ? 1 : 0; }\n")
     a("int main()\n{")
     nl = p["leaves"]
     for i in range(nl):
@@ -276,9 +303,11 @@ def program_cpp(p):
           f"static_cast<nitro::log::severity_level>(t{i}));")
     a('        std::printf("T' + " %d" * nl + '\\n"' + "".join(f", t{i}" for i in range(nl)) + ");")
     for k in range(len(p["stmts"])):
-        inner_sev = p['stmts'][k]['inner']['stmt']['sev'] if p['stmts'][k].get('inner') else p['stmts'][k]['sev']
-        a(f"        trace.clear(); stmt_{k}(); std::printf(\"#{k} W%d W%d\\n\", will({p['stmts'][k]['sev']}), "
-          f"will({inner_sev})); for (auto& e : trace) std::printf(\"%s\\n\", e.c_str());")
+        st_k = p['stmts'][k]
+        inner_st = st_k['inner']['stmt'] if st_k.get('inner') else st_k
+        a(f"        trace.clear(); stmt_{k}(); std::printf(\"#{k} W%d W%d\\n\", "
+          f"will({st_k['sev']}, {cstr(st_k['tag'] or '')}), will({inner_st['sev']}, {cstr(inner_st['tag'] or '')})); "
+          "for (auto& e : trace) std::printf(\"%s\\n\", e.c_str());")
     a("    }\n    return 0;\n}")
     return "\n".join(out) + "\n"
 
@@ -291,7 +320,8 @@ def render(it):
 
 def expected_events(p, s, k, th, filter_decision=None, inner_decision=None):
     """events of statement k under thresholds th"""
-    accepts = filter_eval(p["filter"], s["sev"], th) if filter_decision is None else filter_decision
+    eff_tag = (s["tag"] or "") if p["has_tag"] else ""
+    accepts = filter_eval(p["filter"], s["sev"], th, eff_tag) if filter_decision is None else filter_decision
     enabled = s["sev"] >= p["min"] and accepts
     inner_evs = []
     if s.get("inner"):
@@ -310,7 +340,11 @@ def expected_events(p, s, k, th, filter_decision=None, inner_decision=None):
                 evs += inner_evs
     if enabled:
         tag = (s["tag"] or "") if p["has_tag"] else "-"
-        msg = "".join(render(it) for it in s["items"])
+        msg = ""
+        for it in s["items"]:
+            if it["kind"] == "failbit":
+                break  # the stream is in a failed state from here on
+            msg += render(it)
         f = f"F|{s['sev']}|{tag}|{msg}"
         evs.append(f)
         for q in range(max(1, p["nsinks"])):
